@@ -320,6 +320,10 @@ def native_runtime_api():
     ref = TemplateReference(ctx)["a"]
     if not (ref._depth == 0 and ref._stack is stack and ref._context is ctx):
         problems.append("self.a must refer to depth 0 of the context's stack")
+    e2 = jinja2.Environment(loader=DictLoader({"p": "{% set from_parent = 1 %}{% block a %}{% endblock %}", "c": "{% extends 'p' %}{% set from_child = 2 %}"}))
+    exp = {k: v for k, v in vars(e2.get_template("c").module).items() if not k.startswith("_")}
+    if exp != {"from_parent": 1, "from_child": 2}:
+        problems.append(f"the parent's layout must run in the child's own context (module exports {exp})")
     d = ctx.derived({"x": 1})
     if d.blocks != ctx.blocks or any(d.blocks[k] is ctx.blocks[k] for k in ctx.blocks) or d.eval_ctx is not ctx.eval_ctx or d.name != ctx.name:
         problems.append("a derived context must own equal copies of the block stacks and share eval_ctx/name")
@@ -339,6 +343,12 @@ class RuntimeVC(VC):
 
     def concretize(self, model, pre, out):
         return {"vc": self.name}
+
+    def discharge(self, name, pc, cond, timeout, seed, pre, out):
+        r = VC.discharge(self, name, pc, cond, timeout, seed, pre, out)
+        if r.status == "refuted" and r.witness is None:
+            r.witness = {"vc": self.name, "side_obligation": name}
+        return r
 
 
 class ContextInit(RuntimeVC):
@@ -860,8 +870,8 @@ def block_pred(sc, tree, ph, txt):
     if sc.outcome == "raise":
         return [f"visit_Block raises {sc.value!r}"]
     top, known = decide(sc, TOP), decide(sc, KNOWN)
-    if top is True and known is True:
-        return [] if not tree.body else [f"a block at the top level of a known child template must emit nothing (the parent's layout calls it): {txt!r}"]
+    if top is True and known is True and not tree.body:
+        return []  # nothing emitted: the parent's layout calls the block (otherwise it must at least be guarded, checked below)
     if top is None or (top and known is None):
         return ["path does not decide frame.toplevel / has_known_extends"]
     body = list(tree.body)
@@ -941,9 +951,14 @@ def extends_pred(sc, tree, ph, txt):
         return ["path does not decide extends_so_far > 0"]
     body = list(tree.body)
     fails = []
-    if sofar:
-        if known is not False:
-            return ["code after a second extends of a known child"]
+    if sofar and known:
+        # (CompilerExit normally stops here; code after the unconditional raise is dead)
+        if not (body and is_raise_runtime_error(body[0], "extended multiple times")):
+            return [f"a second extends of a known child must raise TemplateRuntimeError: {txt!r}"]
+        body = body[1:]
+    elif sofar:
+        if known is None:
+            return ["path does not decide has_known_extends"]
         g = body[0] if body else None
         if not (isinstance(g, ast.If) and is_parent_none_test(g.test, negated=True) and not g.orelse and len(g.body) == 1
                 and is_raise_runtime_error(g.body[0], "extended multiple times")):
@@ -987,8 +1002,8 @@ def output_pred(sc, tree, ph, txt):
     if chk is None or (chk and known is None):
         return ["path does not decide require_output_check / has_known_extends"]
     n_children = len(sc.st.get(sc.st.get(sc.node).fields["nodes"]).items)
-    if chk and known:
-        return [] if not tree.body else [f"output outside blocks after a root-level extends must not be emitted: {txt!r}"]
+    if chk and known and not tree.body:
+        return []  # suppressed statically (otherwise it must at least be guarded at run time, checked below)
     body = list(tree.body)
     if chk:
         if not (len(body) == 1 and isinstance(body[0], ast.If) and is_parent_none_test(body[0].test) and not body[0].orelse):
@@ -1205,6 +1220,24 @@ def root_events(stmts, ph, is_async, fails, guarded=False):
     return ev
 
 
+def normalise_events(ev):
+    """semantically irrelevant differences: statements after an unconditional `raise` are dead (except the parent call, which
+    is emitted after the body in any case); after a root-level extends parent_template is never None, so statements guarded by
+    `if parent_template is None` are dead"""
+    out, after_root_extends, dead = [], False, False
+    for e in ev:
+        if dead and e[0] != "tail":
+            continue
+        if after_root_extends and e[0] in ("out", "block") and e[2] is True:
+            continue
+        out.append(e)
+        if e[0] == "extends":
+            after_root_extends = True
+        if e == ("multi", False):
+            dead = True
+    return out
+
+
 def block_name_of(c):
     """name in  context.blocks['<name>'][0](...)  (None when the shape differs)"""
     try:
@@ -1235,7 +1268,7 @@ def template_pred(shape):
             fails.append("render functions must be (async) generators taking (context, missing=missing, ...)")
         if "root" not in funcs:
             return fails
-        got = root_events(funcs["root"].body, ph, is_async, fails)
+        got = normalise_events(root_events(funcs["root"].body, ph, is_async, fails))
         if got != want:
             fails.append(f"root render function does {got}, the inheritance rules demand {want}")
         if not any(k in ("E", "IE") for k in shape) and "parent_template" in names_in(tree):
@@ -1328,7 +1361,23 @@ TASKS = RUNTIME_TASKS + EMIT_TASKS
 
 META = {
     "level": "other",
-    "explanation": "mechanisms proved, end-to-end statement argued by induction over the chain",
-    "assumptions": [],
-    "trusted_base": [],
+    "explanation": "mechanisms proved, end-to-end statement argued by induction over the chain: Context.__init__/super/derived, "
+                   "BlockReference.__init__/super/__call__/_async_call and TemplateReference are VCs on the real bodies (block stacks of arbitrary "
+                   "length, arbitrary block names through a generic key); visit_Block/visit_Extends/visit_Output are emission contracts over symbolic "
+                   "generator state (extends_so_far, has_known_extends); visit_Template is run on 15 concrete small top-level shapes of symbolic "
+                   "children (shape bound) against the layout demanded by the statement. Induction (argued): context.blocks[name] is most-derived "
+                   "first after k extends (Context.__init__ = base case, visit_Extends appends the parent's blocks = step), visit_Block renders entry "
+                   "[0], context.super steps to the next entry, the parent's root function runs after the child's body in the same context.",
+    "assumptions": [
+        "A-EQ equality of block functions / names coincides with term equality (list.index finds the first identical entry)",
+        "A7 await / async comprehensions are transparent",
+        "a block function asking for its parent occurs on the stack of its own name (C04.blocks.order: established by Context.__init__ and visit_Extends; "
+        "emitted as context.super(<name>, block_<name>), checked in C04.emit.template)",
+        "Output nodes have at least one child (the parser only creates non-empty Output nodes)",
+        "name mangling of TemplateReference.__context is uniform within the class (the attribute is only touched by __init__/__getitem__/__repr__, which are run together)",
+        "shape bound of C04.emit.template[...]: the template body is one of 15 concrete top-level shapes; blocks nested in other statements are holes",
+        "children's own emission (expressions, block bodies) is used through holes (modular)",
+    ],
+    "trusted_base": ["z3 5.1 / cvc5 1.0.3", "pyvc symbolic executor and emission engine", "list.index (first occurrence) / list() copy / dict comprehension and "
+                     "generator over .items() (generic item) dependency specs", "C34.block_reference.concat contract (contracts/c34_extra.py) reused for BlockReference.__call__"],
 }
